@@ -1388,6 +1388,91 @@ theorem cmpF_refines (c : Cmp) (how : How) (m : Option Dir) (ch : ColHow) (a b :
     simp [cmpF, binopFG, cmpop, FOperand.ofOperand, indexesOfF, indexesOf, joinIndex, alignAll, alignF, kernelFG, multiNames, resultCols,
       colArg, isDf, kernelG, cmpKernel, BOperand.enc, Cmp.cell, reindexR_idx]
 
+/-! ### `min_ / max_` with frames (`mmListF`, PygModel/OpsFX.lean): `df_sync` of ALL operands, then the left fold -/
+
+theorem mem_framesOfX (xs : List FOperand) (f : RFrame) : f ∈ framesOfX xs ↔ FOperand.df f ∈ xs := by
+  induction xs with
+  | nil => simp [framesOfX]
+  | cons x xs ih =>
+    cases x <;> simp_all [framesOfX]
+
+/-- **value, index and columns at once, any number of operands** (induction over the list): `min_` / `max_` of scalars,
+Series and frames with several columns each, at least one frame, is the frame on the joint index of all timeseries with
+the joint header of the FRAMES (`aggCols`: common columns under `'ij'`, all under `'oj'`, …, sorted) whose cell `(t, c)`
+is the LEFT fold of `np.minimum / np.maximum` (`MM.appO`: NaN propagates) over what the operands show there (`cellM`: a
+frame its cell after `_df_reindex(·, m)`, NaN without the column; a Series its value in every column; a scalar itself) -/
+theorem mmF_value (k : MM) (how : How) (m : Option Dir) (ch : ColHow) (x : FOperand) (xs : List FOperand) (f : RFrame) (fs : List RFrame)
+    (hf : framesOfX (x :: xs) = f :: fs) (hd : ∀ g, FOperand.df g ∈ x :: xs → g.cols.length > 1) :
+    ∃ ix, joinIndex how (indexesOfF (x :: xs)) = some ix ∧
+      mmListF k how m ch (x :: xs) [] =
+        some (.df { idx := ix, cols := (aggCols ch f fs).map fun c =>
+                      (c, ix.map fun t => xs.foldl (fun v y => k.appO v (cellM m c t y)) (cellM m c t x)) }) := by
+  have hfm : FOperand.df f ∈ x :: xs := (mem_framesOfX _ f).mp (by rw [hf]; simp)
+  have hix : ∃ ix, joinIndex how (indexesOfF (x :: xs)) = some ix := by
+    cases hi : indexesOfF (x :: xs) with
+    | nil => exact absurd hi (indexesOfF_ne_nil _ f hfm)
+    | cons a as => exact ⟨_, joinIndex_fold how a as⟩
+  obtain ⟨ix, hix⟩ := hix
+  refine ⟨ix, hix, ?_⟩
+  have hm := multiNames_align ix m (x :: xs) hd
+  rw [hf] at hm
+  simp only [mmListF, syncF, List.append_nil, hix, hm]
+  simp only [List.map_cons]
+  have hcols : colsJoin ch f.names (fs.map (·.names)) = aggCols ch f fs := rfl
+  rw [hcols]
+  have hx := recolX_alignF (aggCols ch f fs) ix m x (fun g e => hd g (by simp [e]))
+  have hxs : (xs.map (alignF ix m)).map (recolX (aggCols ch f fs)) =
+      (xs.map fun y => (rankF y, fun c t => cellM m c t y)).map fun y => buildF ix (aggCols ch f fs) y.1 y.2 := by
+    simp only [List.map_map]
+    apply List.map_congr_left
+    intro y hy
+    exact recolX_alignF (aggCols ch f fs) ix m y (fun g e => hd g (by simp [← e, hy]))
+  simp only [reducerF]
+  rw [hx, hxs, foldl_mmKernelF k ix (aggCols ch f fs) _ _ _ (constF_cellM m x)
+    (by intro y hy; simp only [List.mem_map] at hy; obtain ⟨z, _, rfl⟩ := hy; exact constF_cellM m z)]
+  have hr : 2 ≤ (xs.map fun y => (rankF y, fun c t => cellM m c t y)).foldl (fun r y => max r y.1) (rankF x) := by
+    rcases List.mem_cons.mp hfm with e | hmem
+    · rw [← e]; exact rank_fold_ge _ _
+    · exact rank_fold_mem _ _ (rankF (.df f), fun c t => cellM m c t (.df f)) (List.mem_map.mpr ⟨_, hmem, rfl⟩)
+  rw [buildF_ge2 _ _ _ _ hr]
+  simp only [List.foldl_map]
+
+/-- two frames: `min_(a, b)` / `max_(a, b)` is the frame on the joint index whose cell `(t, c)` is the pointwise minimum /
+maximum of the two cells, NaN where either is NaN or a frame lacks the column (no neutral element: `df_sync` fills NaN) -/
+theorem mmF_two (k : MM) (how : How) (m : Option Dir) (ch : ColHow) (a b : RFrame) (ha : a.cols.length > 1) (hb : b.cols.length > 1) :
+    ∃ ix, joinIndex how [a.idx, b.idx] = some ix ∧
+      mmListF k how m ch [.df a] [.df b] =
+        some (.df { idx := ix, cols := (aggCols ch a [b]).map fun c =>
+                      (c, ix.map fun t => k.appO (cellD Option.none a m c t) (cellD Option.none b m c t)) }) := by
+  obtain ⟨ix, h1, h2⟩ := mmF_value k how m ch (.df a) [.df b] a [b] rfl
+    (by intro g hg; simp at hg; rcases hg with rfl | rfl <;> assumption)
+  refine ⟨ix, h1, ?_⟩
+  have : mmListF k how m ch [.df a] [.df b] = mmListF k how m ch [.df a, .df b] [] := rfl
+  rw [this, h2]
+  rfl
+
+/-- the header: union / intersection over ALL frames (`aggF_columns_oj / _ij` apply to `aggCols`), the first frame's under
+`'lj'`, the last frame's under `'rj'`; always sorted in the model (pandas' own order in the code, compared sorted) -/
+theorem mmF_columns_lj (f : RFrame) (fs : List RFrame) (c : String) : c ∈ aggCols .lj f fs ↔ c ∈ f.names := by
+  simp [aggCols, colsJoin, mem_sortS]
+
+/-- a frame against a Series / a scalar: broadcast to every cell -/
+theorem mmF_frame_series (k : MM) (how : How) (m : Option Dir) (ch : ColHow) (a : RFrame) (s : RSeries) (ha : a.cols.length > 1) :
+    ∃ ix, joinIndex how [a.idx, s.idx] = some ix ∧
+      mmListF k how m ch [.df a] [.ts s] =
+        some (.df { idx := ix, cols := (aggCols ch a []).map fun c =>
+                      (c, ix.map fun t => k.appO (cellD Option.none a m c t) (lookR s m t)) }) := by
+  obtain ⟨ix, h1, h2⟩ := mmF_value k how m ch (.df a) [.ts s] a [] rfl
+    (by intro g hg; simp at hg; rcases hg with rfl; assumption)
+  refine ⟨ix, h1, ?_⟩
+  have : mmListF k how m ch [.df a] [.ts s] = mmListF k how m ch [.df a, .ts s] [] := rfl
+  rw [this, h2]
+  rfl
+
+/-- commutativity of the pointwise fold for two operands (`np.minimum(x, y) = np.minimum(y, x)`) -/
+theorem mmF_cell_comm (k : MM) (m : Option Dir) (c : String) (t : Int) (x y : FOperand) :
+    k.appO (cellM m c t x) (cellM m c t y) = k.appO (cellM m c t y) (cellM m c t x) := mm_appO_comm k _ _
+
 /-! ### non-vacuity and evaluation checks
 (`Rat` arithmetic does not reduce in the kernel, so concrete results are `#guard` evaluation tests, not theorems) -/
 
